@@ -113,3 +113,38 @@ Proof.
   pose proof (se3_rjac_translation_derivative eps He a b c x y z da db dc dx dy dz i Hgt Hi) as D2.
   apply (is_derive_unique _ _ _) in D1. apply (is_derive_unique _ _ _) in D2. rewrite <- D1, <- D2. reflexivity.
 Qed.
+
+(* SO3 log on its closed-form branch (vector part above the threshold), upper hemisphere w > 0: two comparisons, sqrt, atan2 *)
+Theorem chain_SO3_log eps x y z w dx dy dz dw j : 0 < eps -> eps < x * x + y * y + z * z -> 0 < w -> (j < 3)%nat ->
+  is_derive (fun h => entry 0 (@run_op RS eps GSO3 OLog [] 0%Z (at_h h [[x; y; z; w]] [[dx; dy; dz; dw]])) 0 j) 0
+    (snd (entry (0, 0) (@run_op (DS RS) (eps, 0) GSO3 OLog [] 0%Z (seed [[x; y; z; w]] [[dx; dy; dz; dw]])) 0 j)).
+Proof.
+  intros He Hgt Hw Hj.
+  set (nf := fun h : R => (x + h * dx) * (x + h * dx) + ((y + h * dy) * (y + h * dy) + ((z + h * dz) * (z + h * dz) + 0))).
+  assert (Hc : continuous nf 0) by (apply (ex_derive_continuous nf); unfold nf; auto_derive; exact I).
+  assert (Hcw : continuous (fun h : R => w + h * dw) 0) by (apply (ex_derive_continuous (fun h : R => w + h * dw)); auto_derive; exact I).
+  assert (N0 : nf 0 = x * x + y * y + z * z) by (unfold nf; ring).
+  assert (EKh : forall h, fn (@sqnorm (FSh h) [line1 x dx; line1 y dy; line1 z dz]) = nf) by (intros h; reflexivity).
+  assert (EK0 : fn (@sqnorm FS [line1 x dx; line1 y dy; line1 z dz]) = nf) by reflexivity.
+  set (rD := @run_op (DS RS) (eps, 0) GSO3 OLog [] 0%Z (seed [[x; y; z; w]] [[dx; dy; dz; dw]])).
+  assert (ED : exists o, rD = Ok [o] /\ length o = 3%nat).
+  { unfold rD. cbn [run_op group_of arg bit nth seed combine map fst snd g_log SO3 out1]. unfold so3_log, vscale_r. cbn [firstn map]. eexists; split; reflexivity. }
+  destruct ED as (o & ED & Lo). rewrite ED. cbn [entry nth]. change o with (nth 0 [o] []) at 1.
+  assert (Hloc : locally 0 (fun h => eps < nf h /\ 0 < w + h * dw)).
+  { apply filter_and; [apply (Hc (fun v => eps < v)); apply (open_gt eps); rewrite N0; exact Hgt|].
+    apply (Hcw (fun v => 0 < v)). apply (open_gt 0). rewrite Rmult_0_l, Rplus_0_r. exact Hw. }
+  apply (run_op_chain eps GSO3 OLog [] 0%Z [[x; y; z; w]] [[dx; dy; dz; dw]] [o] 0 j); [|exact ED|cbn; lia|cbn [nth]; rewrite Lo; exact Hj|].
+  - apply (filter_imp (fun h => eps < nf h /\ 0 < w + h * dw)); [intros h [Hh Hwh]|exact Hloc].
+    cbn [run_op group_of arg bit nth lineF combine map fst snd g_log SO3 out1]. unfold so3_log, kgtb, qw. cbn [firstn vnth nth].
+    cbn [kltb FSh FS fn fconst line1]. cbn [K FSh FS] in *. rewrite EKh, EK0, N0.
+    rewrite (Rltb_lt_true _ _ Hh), (Rltb_lt_true _ _ Hgt).
+    change (fn (@kz (FSh h) 0) h) with 0. change (fn (@kz FS 0) 0) with 0.
+    rewrite (Rltb_lt_false (w + h * dw) 0) by lra. rewrite (Rltb_lt_false (w + 0 * dw) 0) by lra. reflexivity.
+  - cbn [run_op group_of arg bit nth lineF combine map fst snd g_log SO3 out1 entry]. unfold so3_log, kgtb, qw. cbn [firstn vnth nth].
+    cbn [kltb FS fn fconst line1]. cbn [K FSh FS] in *. rewrite EK0, N0. rewrite (Rltb_lt_true _ _ Hgt).
+    change (fn (@kz FS 0) 0) with 0. rewrite (Rltb_lt_false (w + 0 * dw) 0) by lra.
+    assert (Hs : sqrt (nf 0) <> 0) by (rewrite N0; intros E0; apply sqrt_eq_0 in E0; lra).
+    assert (Hp : 0 < nf 0) by (rewrite N0; lra). assert (Hw0 : 0 < w + 0 * dw) by lra.
+    destruct j as [|[|[|j]]]; [| | |exfalso; lia]; cbn; fold nf; tauto.
+Qed.
+Print Assumptions chain_SO3_log.
